@@ -66,6 +66,9 @@ def standard(tree, rng=None, hostile_content=True, specials=False):
     return objs
 
 
+ZIP_SCRIPT = b"#!/bin/sh\necho member-script-output\n"
+
+
 def add_full_list_content(tree):
     """Content for the full handler list: ZIP archive, PYG, executable script, TAL, gz."""
     zpath = tree.path("arch.zip")
@@ -79,13 +82,20 @@ def add_full_list_content(tree):
         z.writestr("zd/page.html", "<html><head><title>Page inside the archive</title></head><body>x</body></html>\n")
         z.writestr("old.zip/notes.txt", "a directory that is named like an archive\n")
         z.writestr("zd/broken.zip", "a file that is named like an archive but is none\n")
+        # members recorded as executable (Unix mode 0755): still archive members, never programs
+        for nm, body in (("tools/report.sh", ZIP_SCRIPT), ("tools/gen.pyg", PYG_SRC.encode() if isinstance(PYG_SRC, str) else PYG_SRC)):
+            zi = zipfile.ZipInfo(nm)
+            zi.create_system = 3
+            zi.external_attr = (0o100755) << 16
+            z.writestr(zi, body)
     tree.write("hello.pyg", PYG_SRC)
     tree.write("script.sh", b"#!/bin/sh\necho script-output\n", mode=0o755)
     tree.write("tmpl.html.tal", b"<html><body><p tal:content=\"selector\">x</p></body></html>\n")
     return [("/arch.zip", "dir"), ("/arch.zip/inside.txt", "file"), ("/arch.zip/zd", "dir"),
             ("/arch.zip/zd/nested.txt", "file"), ("/arch.zip/old.zip", "dir"), ("/arch.zip/old.zip/notes.txt", "file"),
             ("/arch.zip/zd/broken.zip", "file"), ("/arch.zip/zd/page.html", "file"), ("/arch.zip/box.mbox", "file"), ("/arch.zip/md", "dir"),
-            ("/arch.zip/run.pyg", "file"), ("/arch.zip/box.mbox|/MBOX-MESSAGE/1", "file"),
+            ("/arch.zip/run.pyg", "file"), ("/arch.zip/tools", "dir"), ("/arch.zip/tools/report.sh", "file"), ("/arch.zip/tools/gen.pyg", "file"),
+            ("/arch.zip/box.mbox|/MBOX-MESSAGE/1", "file"),
             ("/arch.zip/md|/MAILDIR-MESSAGE/1", "file"), ("/mail/box.mbox|/MBOX-MESSAGE/1", "file"), ("/hello.pyg", "file"), ("/script.sh", "file"),
             ("/tmpl.html.tal", "file")]
 
